@@ -38,7 +38,7 @@ Definition obs_init_ts (o : list out) : option N :=
    initiation it is pinned down (up to whitening) by the observed timestamp. *)
 Definition eff_now (c : cstep) : N :=
   match e_body (c_ev c), obs_init_ts (o_out (c_obs c)) with
-  | BTun _ _, Some ts | BInitiate _ _, Some ts | BRemoveRace _, Some ts => N.max (e_now (c_ev c)) (unstamp (of_val ts))
+  | BTun _ _, Some ts | BInitiate _ _, Some ts | BRemoveRace _, Some ts | BRespWindow _ _ _, Some ts => N.max (e_now (c_ev c)) (unstamp (of_val ts))
   | _, _ => e_now (c_ev c)
   end.
 
@@ -137,7 +137,10 @@ Definition check_cases (ks : list case) (ts : list tcase) (az : list acase) : li
    18 ambiguous flood steps 19 tun for unknown peer  20 valid MAC1 under load -> cookie reply
    21 under-load toggles    22 dropped at gate / MAC1 while under load
    23 concurrent SendHandshakeInitiation burst -> one initiation   24 burst blocked by spacing
-   25 peer removed with a retransmit callback in flight *)
+   25 peer removed with a retransmit callback in flight
+   26 window: response consumed, the in-window event supersedes the handshake (no session)
+   27 window: response consumed, handshake untouched by the in-window event (session)
+   28 window step whose response was not consumable (sequential) *)
 Definition classify (st : state) (e : event) : nat :=
   match e_body e with
   | BMsg src m =>
@@ -177,6 +180,13 @@ Definition classify (st : state) (e : event) : nat :=
   | BLoad _ => 21%nat
   | BRemoveRace _ => 25%nat
   | BInitiate p _ => if e_now e - last_sent (peers st p) <? RekeyTimeout then 24%nat else 23%nat
+  | BRespWindow src m w =>
+      match resp_phase1 st m with
+      | None => 28%nat
+      | Some p =>
+          let st1 := set_peer st p (with_response_consumed (peers st p) src m) in
+          if hs_state (peers (fst (wact_step st1 (e_now e) (e_oidx e) w)) p) =? 4 then 27%nat else 26%nat
+      end
   end.
 
 Fixpoint bump (l : list N) (i : nat) : list N :=
@@ -196,7 +206,7 @@ Fixpoint stats_steps (cfg : list (N * N * N)) (st : state) (cs : list cstep) (h 
   end.
 
 Definition stats (ks : list case) : list N :=
-  fold_left (fun h k => stats_steps (c_cfg k) (init (c_cfg k) (c_now0 k)) (c_steps k) h) ks (repeat 0 26).
+  fold_left (fun h k => stats_steps (c_cfg k) (init (c_cfg k) (c_now0 k)) (c_steps k) h) ks (repeat 0 29).
 
 (* ------------------------------------------- builders used by case files *)
 (* Every number in a generated case file is a primitive-int literal. *)
@@ -231,6 +241,10 @@ Definition br : body := BRestart.
 Definition bl (on : bool) : body := BLoad on.
 Definition brr (p : Uint63.int) : body := BRemoveRace (I p).
 Definition bi (p k : Uint63.int) : body := BInitiate (I p) (I k).
+Definition wi (p k : Uint63.int) : wact := WInitiate (I p) (I k).
+Definition wsi (p d : Uint63.int) : wact := WShiftInitiate (I p) (I d).
+Definition wm (src : Uint63.int) (m : msg) : wact := WMsg (I src) m.
+Definition bw (src : Uint63.int) (m : msg) (w : wact) : body := BRespWindow (I src) m w.
 Definition cs (lo hi oidx : Uint63.int) (b : body) (o : obs) : cstep :=
   {| c_ev := {| e_now := I lo; e_oidx := I oidx; e_body := b |}; c_hi := I hi; c_obs := o |}.
 Definition pc (k psk ep : Uint63.int) : N * N * N := (I k, I psk, I ep).
